@@ -3,7 +3,8 @@
 # Development aid (not a registered check): runs the thorough tier of <prop> with every operator
 # mutant dumped that NO rule fires on, then runs gotree's own test suite on each of them in a
 # scratch copy of /repo.  Prints the mutants that survive both the rules and the tests: candidates
-# for a new rule (or equivalent mutants).  Scratch space under /tmp/surv is removed at the end.
+# for a new rule (or equivalent mutants); their mutated files are kept under /tmp/surv_keep/<prop>/.
+# Scratch space under /tmp/surv is removed at the end.
 set -u
 prop="$1"; budget="${2:-400}"
 export GOFLAGS=-mod=mod GOPROXY=off GOSUMDB=off GOTOOLCHAIN=local GOWORK=off
@@ -32,13 +33,13 @@ one() {
     mkdir -p $s.verif/evidence; cp /verif/known_findings.json $s.verif/; ln -s /verif/checker $s.verif/checker
     fired=$(GTVERIF_REPO=$s GTVERIF_VERIF=$s.verif ${GTVERIF_BIN:-/verif/bin/gtverif} sweep 2>&1 | grep '^== C.* rc=' | grep -v 'rc=0' | sed 's/== \(C[0-9]*\) rc=.*/\1/' | tr '\n' ' ')
     rm -rf $s.verif
-    if [ -n "$fired" ]; then res="pass CAUGHT-BY $fired"; else res="pass SURVIVES-ALL"; fi
+    if [ -n "$fired" ]; then res="pass CAUGHT-BY $fired"; else res="pass SURVIVES-ALL"; mkdir -p /tmp/surv_keep/$(basename $W); cp -r $d /tmp/surv_keep/$(basename $W)/; fi
   fi
   echo "$name TESTS-$res $(head -1 $d/DESC)"
   cd /; rm -rf $s
 }
 export -f one
-ls -d $W/dump/* 2>/dev/null | xargs -P 6 -I{} bash -c 'one "$@"' _ {} $W > $W/result.log 2>&1
+ls -d $W/dump/* 2>/dev/null | xargs -P ${SURV_P:-6} -I{} bash -c 'one "$@"' _ {} $W > $W/result.log 2>&1
 grep -c TESTS-fail $W/result.log | sed 's/^/  killed by the tests: /'
 grep -c "CAUGHT-BY" $W/result.log | sed 's/^/  pass the tests, caught by the check of another property: /'
 echo "  survive the tests AND all twenty checks:"
